@@ -38,6 +38,15 @@ TOKENS = [
     # labels at the eight-character limit, a seven-digit index
     {"labels": {"a": "abcdefgh", "b": "abcdefg"}, "vals": {"x": "01-02-03-04-05-06-07-08", "y": "00"}},
     {"labels": {"a": "α1234567", "b": "€uro€uro"}, "vals": {"x": "00-00", "y": "FF"}},
+    # 7..10 CONFUSABLE values: distinct labels / byte strings that a coarser reading identifies (look-alike characters, letter
+    # case; +0.0 / -0.0 and two NaNs as f64, a leading / trailing zero byte); on two-label two-value instances both labels sit
+    # on one vertex and one value overwrites the other, read or unread
+    {"labels": {"a": "Δ", "b": "∆"}, "vals": {"x": "00-00-00-00-00-00-00-00", "y": "80-00-00-00-00-00-00-00"}},
+    {"labels": {"a": "φ", "b": "ϕ"}, "vals": {"x": "7F-F8-00-00-00-00-00-00", "y": "7F-F8-00-00-00-00-00-01"}},
+    {"labels": {"a": "foo", "b": "Foo"}, "vals": {"x": "00-01", "y": "01"}},
+    {"labels": {"a": "µ", "b": "μ"}, "vals": {"x": "01-00", "y": "01"}},
+    # 11: the heap representation asked for whatever the length (Hex::Vector is public): an empty and a short Vector
+    {"labels": {"a": "ab", "b": "~s:a b"}, "vals": {"x": "--~v", "y": "07-18-29~v"}},
 ]
 
 
@@ -114,7 +123,7 @@ class Acc:
 
 
 def e1_sodg(run, acc, inst="A3", extra_props=()):
-    r = vlib.model_check(run, "Sodg", cfg_mc(inst, invariants=["TypeOK", "CanAlwaysGroup"], properties=SODG_PROPS + list(extra_props)))
+    r = vlib.model_check(run, "Sodg", cfg_mc(inst, invariants=["TypeOK", "CanAlwaysGroup", "Recoverable"], properties=SODG_PROPS + list(extra_props)))
     acc.add_e1(f"Sodg[{inst}]", r)
     need = {"Add", "Bind", "Put", "Data", "NextId"}
     missing = [a for a in need if r["actions"].get(a, (0, 0))[1] == 0]
@@ -140,7 +149,7 @@ def cfg_impl(rules, cap=3, nslots=4, slotsize=3, labels=("a",), vals=("x",), max
     return (f"SPECIFICATION ISpec\nVIEW iview\nCONSTANTS Cap = {cap} Labels = {tla_set(labels)} Vals = {tla_set(vals)} MaxN = {maxn} "
             f"NSlots = {nslots} SlotSize = {slotsize} Rules = \"{rules}\"\n"
             "INVARIANT NoPanic\nINVARIANT CounterIsRecount\nINVARIANT TagsMatchLists\nINVARIANT ReservedKept\n"
-            "INVARIANT OccupiedIsGroups\nINVARIANT NoDuplicateMembers\nPROPERTY RefinesSodg\nCHECK_DEADLOCK FALSE\n")
+            "INVARIANT OccupiedIsGroups\nINVARIANT NoDuplicateMembers\nINVARIANT ImplRecoverable\nPROPERTY RefinesSodg\nCHECK_DEADLOCK FALSE\n")
 
 
 def e1_ind(run, acc):
@@ -370,7 +379,7 @@ def plan_gc(run, prop, tier):
             e1_safe(run, acc, "B3")
     # E2: every property of the family sees the same instances (a change is attributed by the lenses, not by the plan)
     ts = e2_product(run, acc, "A3", [(2, 3, 0), (1, 4, 1), (16, 256, 2)] if tier == "quick" else [(2, 3, 0), (1, 4, 1), (16, 256, 2), (3, 7, 1), (8, 64, 0)])
-    e2_product(run, acc, "C2", [(2, 2, 0), (4, 9, 5)])
+    e2_product(run, acc, "C2", [(2, 2, 0), (4, 9, 5)] + ([(2, 3, 7), (2, 2, 8), (16, 4, 9), (2, 3, 10), (2, 2, 11)] if prop in ("C02", "C03") or tier == "thorough" else []))
     e2_product(run, acc, "D3", [(1, 3, 2)] if tier == "quick" else [(1, 3, 2), (1, 5, 6)])
     e2_product(run, acc, "B3", [(1, 3, 1)])
     e2_product(run, acc, "F4a", [(1, 4, 1)])
@@ -411,8 +420,8 @@ def cfg_world(cap, labels=("a",), vals=("x",), nh=2, props=("FreshIds", "OnlyRea
 
 def e1_world(run, acc, tier):
     r = vlib.model_check(run, "World", cfg_world(2))
-    acc.add_e1("World[2 ids, 2 handles: 5 mutators + clone + save/load + slice + merge]", r)
-    need = {"WClone", "WReload", "WSlice", "WNextId", "WData", "WMerge"}
+    acc.add_e1("World[2 ids, 2 handles: 5 mutators + clone + save/load + slice + merge + script deployment]", r)
+    need = {"WClone", "WReload", "WSlice", "WNextId", "WData", "WMerge", "WDeploy"}
     missing = [a for a in need if r["actions"].get(a, (0, 0))[1] == 0]
     if missing:
         raise ToolError(f"vacuity: World actions never taken: {missing}")
@@ -431,11 +440,14 @@ def twin_plan(tier, s):
                 dict(profile="twin", n=1, cap=12, steps=1500, seed=s * 100 + 13, window=8),
                 # copies taken AT the limits (full groups, all 14 slots in use, ids beyond 128 behind empty stretches of the table)
                 dict(profile="cycletwin", n=16, cap=256, steps=1600, seed=s * 100 + 15, window=10),
-                dict(profile="cycletwin", n=2, cap=64, steps=1600, seed=s * 100 + 16, window=10)]
+                dict(profile="cycletwin", n=2, cap=64, steps=1600, seed=s * 100 + 16, window=10),
+                # data of 4 KiB .. 17 MiB through save+load, clone and clone_from, read on both sides
+                dict(profile="bigdata", n=2, cap=16, steps=0, seed=s * 100 + 17, window=8)]
     return [dict(profile="twin", n=n, cap=cap, steps=6000, seed=s * 1000 + 50 + i, window=w)
             for i, (n, cap, w) in enumerate([(1, 12, 8), (2, 24, 10), (2, 64, 24), (3, 32, 12), (4, 40, 16), (8, 64, 20), (16, 256, 40), (16, 32, 12)])] + \
            [dict(profile="cycletwin", n=n, cap=cap, steps=5000, seed=s * 1000 + 80 + i, window=10)
-            for i, (n, cap) in enumerate([(1, 64), (2, 200), (3, 46), (4, 256), (8, 130), (16, 256), (16, 64), (2, 64)])]
+            for i, (n, cap) in enumerate([(1, 64), (2, 200), (3, 46), (4, 256), (8, 130), (16, 256), (16, 64), (2, 64)])] + \
+           [dict(profile="bigdata", n=n, cap=16, steps=0, seed=s * 1000 + 95 + n, window=8) for n in (1, 16)]
 
 
 def plan_c05(run, prop, tier):
@@ -463,7 +475,7 @@ def plan_twin(run, prop, tier):
     e1_world(run, acc, tier)
     obs = ("indep",) if prop == "C10" else ()
     e2_product(run, acc, "A3", [(2, 3, 1), (1, 4, 0), (16, 64, 2)], extra_ops=(op,), observers=obs)
-    e2_product(run, acc, "C2", [(2, 2, 3), (4, 9, 4)], extra_ops=(op,), observers=obs)
+    e2_product(run, acc, "C2", [(2, 2, 3), (4, 9, 4), (2, 3, 7), (2, 2, 11)], extra_ops=(op,), observers=obs)
     e2_product(run, acc, "F4a", [(1, 4, 1)], extra_ops=(op,), observers=obs)
     e2_product(run, acc, "F5", [(1, 5, 0)], extra_ops=(op,), observers=obs)
     if tier == "thorough":
@@ -481,9 +493,13 @@ def slice_plan(tier, s):
     if tier == "quick":
         return [dict(profile="slice", n=4, cap=16, steps=1200, seed=s * 100 + 21, window=12),
                 dict(profile="slice", n=16, cap=64, steps=1200, seed=s * 100 + 22, window=14),   # 14 ids in play: slices of exactly 14 vertices
-                dict(profile="slice", n=2, cap=14, steps=1000, seed=s * 100 + 23, window=9)]
+                dict(profile="slice", n=2, cap=14, steps=1000, seed=s * 100 + 23, window=9),
+                # 14 vertices from 14 different groups, all 14 groups alive (ids at the bottom / at the top of the table)
+                dict(profile="slice14", n=2, cap=64, steps=0, seed=s * 100 + 24, window=28),
+                dict(profile="slice14", n=1, cap=28, steps=0, seed=s * 100 + 25, window=28)]
     return [dict(profile="slice", n=n, cap=cap, steps=4000, seed=s * 1000 + 70 + i, window=w)
-            for i, (n, cap, w) in enumerate([(2, 14, 9), (3, 16, 12), (4, 16, 14), (8, 32, 13), (16, 64, 14), (16, 256, 13), (1, 12, 8), (2, 20, 14)])]
+            for i, (n, cap, w) in enumerate([(2, 14, 9), (3, 16, 12), (4, 16, 14), (8, 32, 13), (16, 64, 14), (16, 256, 13), (1, 12, 8), (2, 20, 14)])] + \
+           [dict(profile="slice14", n=n, cap=cap, steps=0, seed=s * 1000 + 60 + i, window=28) for i, (n, cap) in enumerate([(1, 28), (2, 29), (16, 256), (3, 64)])]
 
 
 def plan_c13(run, prop, tier):
@@ -677,7 +693,7 @@ def plan_export(run, prop, tier):
         obs, extra = ("debug",), ("inspect",)
     # cap > number of ids: there are always never-added slots; dead slots keep stale contents (snapshots are not masked)
     e2_product(run, acc, "A3", [(2, 5, 0), (16, 32, 2)], extra_ops=extra, observers=obs)
-    e2_product(run, acc, "C2", [(2, 4, 0), (4, 3, 5), (2, 2, 1)], extra_ops=extra, observers=obs)
+    e2_product(run, acc, "C2", [(2, 4, 0), (4, 3, 5), (2, 2, 1), (2, 3, 11), (2, 2, 7)], extra_ops=extra, observers=obs)
     e2_product(run, acc, "G3", [(2, 3, 6)], extra_ops=extra, observers=obs, need_gc=False)
     e2_product(run, acc, "F4a", [(1, 6, 2)], extra_ops=extra, observers=obs)
     if tier == "thorough":
